@@ -41,4 +41,7 @@ def search(run, proof):
 def replay(case):
     if case.get('kind') == 'cls':
         return clsrun.ClsOracle.prop(case)
+    if case.get('kind') == 'corpus':
+        from harness import corpus_props
+        return corpus_props.replay(case)
     return []
